@@ -11,6 +11,31 @@ class Model:
     pass
 
 
+def _inline_return_helpers(repo, func):
+    """`return helper(a)` where helper is a function of the same module whose body is one `return <tuple>` over its
+    parameters and constants: the tuple is written out (the shared "skip" result of the ordering function)."""
+    import copy
+
+    from ..core import Func
+
+    node = copy.deepcopy(func.node)
+    changed = False
+    for r in ast.walk(node):
+        if isinstance(r, ast.Return) and isinstance(r.value, ast.Call) and isinstance(r.value.func, ast.Name):
+            h = func.module.funcs.get(r.value.func.id)
+            if h is None or h.cls is not None:
+                continue
+            body = [x for x in h.node.body if not (isinstance(x, ast.Expr) and isinstance(x.value, ast.Constant))]
+            if len(body) == 1 and isinstance(body[0], ast.Return) and isinstance(body[0].value, ast.Tuple) and len(r.value.args) == len(h.params) and not r.value.keywords:
+                sub = dict(zip(h.params, r.value.args))
+                if all(isinstance(n, ast.Constant) or (isinstance(n, ast.Name) and n.id in sub) for e in body[0].value.elts for n in [e]):
+                    r.value = ast.copy_location(ast.Tuple(elts=[copy.deepcopy(sub[e.id]) if isinstance(e, ast.Name) else copy.deepcopy(e) for e in body[0].value.elts], ctx=ast.Load()), r.value)
+                    changed = True
+    if not changed:
+        return func
+    return Func(func.module, func.qualname, ast.fix_missing_locations(node), func.cls, func.parent)
+
+
 def build(ctx, rule):
     repo = ctx.repo
     mod = repo.module("gaftools.cli.order_gfa", rule)
@@ -35,7 +60,7 @@ def build(ctx, rule):
                         continue
                     rets = [r for r in walk_own(callee.node) if isinstance(r, ast.Return) and isinstance(r.value, ast.Tuple)]
                     if len(rets) >= 2:
-                        m.run, m.loop, m.call_stmt, m.dec = f, loop, st, inlined(repo, tail_inlined(repo, callee))  # also `return _skipped(bo)`
+                        m.run, m.loop, m.call_stmt, m.dec = f, loop, st, _inline_return_helpers(repo, tail_inlined(repo, callee))  # also `return _skipped(bo)`
                         m.run0 = mod.funcs[f.qualname]
     if m.run is None:
         raise AnalysisError(rule, mod.relpath, "cannot find the chromosome loop (for-loop unpacking the result of the per-component ordering function)")
